@@ -23,29 +23,36 @@ def formatType : Nat → TR → Option (List Byte × TR)
   | 0, _ => none
   | f+1, t =>
     let tk := t.nextTok
-    let body : Option (List Byte × TR) :=
+    -- `inl`: the early `return typeBytes` when the input ends inside a map / array type (no suffix loop);
+    -- `inr`: fall through to the `[]` suffix loop
+    let body : Option ((List Byte × TR) ⊕ (List Byte × TR)) :=
       match tk.kind with
-      | .ident => some (tk.concrete, t)
+      | .ident => some (.inr (tk.concrete, t))
       | .kMap =>
         let (a, t1) := takeToks [] 3 t tk.concrete
-        let (_, t2) := next t1
-        match formatType f t2 with
-        | none => none
-        | some (v, t3) =>
-          let (c, t4) := nextConc t3
-          some (a ++ [32] ++ v ++ c, t4)
+        match next t1 with
+        | (false, t2) => some (.inl (a ++ [32], t2))
+        | (true, t2) =>
+          match formatType f t2 with
+          | none => none
+          | some (v, t3) =>
+            let (c, t4) := nextConc t3
+            some (.inr (a ++ [32] ++ v ++ c, t4))
       | .kArray =>
         let (a, t1) := takeToks [] 1 t tk.concrete
-        let (_, t2) := next t1
-        match formatType f t2 with
-        | none => none
-        | some (v, t3) =>
-          let (c, t4) := nextConc t3
-          some (a ++ v ++ c, t4)
-      | _ => some ([], t)
+        match next t1 with
+        | (false, t2) => some (.inl (a, t2))
+        | (true, t2) =>
+          match formatType f t2 with
+          | none => none
+          | some (v, t3) =>
+            let (c, t4) := nextConc t3
+            some (.inr (a ++ v ++ c, t4))
+      | _ => some (.inr ([], t))
     match body with
     | none => none
-    | some (bs, t1) => arrSuffix f t1 bs
+    | some (.inl r) => some r
+    | some (.inr (bs, t1)) => arrSuffix f t1 bs
 where
   strOfAscii (s : String) : List Byte := s.toList.map (fun c => UInt8.ofNat c.toNat)
   /-- `for { if !tr.Next() || kind != '[' { tr.UnNext(); break }; tr.Next(); append "[]" }` -/
@@ -66,7 +73,7 @@ def fmtAttr (pre : List Byte) (t : TR) : List Byte × TR :=
   let (a, t1) := takeToks [] 5 t (pre ++ t.nextTok.concrete)
   (a ++ [10], t1)
 
-def formatEnum (fuel : Nat) (t : TR) : List Byte × TR :=
+def formatEnum (fuel : Nat) (t : TR) : Option (List Byte × TR) :=
     let (hd, t1) := takeToks [32] 2 t t.nextTok.concrete
     let (hd, t1) := if t1.nextTok.kind == .colon then takeToks [32] 2 t1 hd else (hd, t1)
     loop fuel t1 (hd ++ [10])
@@ -83,11 +90,11 @@ where
         else
           let sp := if prev != .openParen && tk.kind != .closeParen then [32] else []
           optValue f t1 tk.kind (acc ++ sp ++ tk.concrete)
-  loop : Nat → TR → List Byte → List Byte × TR
-    | 0, t, acc => (acc, t)
+  loop : Nat → TR → List Byte → Option (List Byte × TR)
+    | 0, _, _ => none      -- out of fuel: the Go loop would not have ended
     | f+1, t, acc =>
       match next t with
-      | (false, t1) => (acc, t1)
+      | (false, t1) => some (acc, t1)
       | (true, t1) =>
         let tk := t1.nextTok
         match tk.kind with
@@ -97,7 +104,7 @@ where
         | .ident =>
           let (o, t2) := optValue fuel t1 tk.kind ([9] ++ tk.concrete)
           loop f t2 (acc ++ o ++ sq ";\n")
-        | .closeCurly => (acc ++ tk.concrete ++ [10], t1)
+        | .closeCurly => some (acc ++ tk.concrete ++ [10], t1)
         | _ => loop f t1 acc
 
 def formatConst (t : TR) : List Byte × TR :=
@@ -111,7 +118,7 @@ def formatStruct (fuel : Nat) (t : TR) (readonly : Bool) (prefix_ : List Byte) :
   loop fuel t1 (hd ++ [10])
 where
   loop : Nat → TR → List Byte → Option (List Byte × TR)
-    | 0, t, acc => some (acc, t)
+    | 0, _, _ => none      -- out of fuel: the Go loop would not have ended
     | f+1, t, acc =>
       match next t with
       | (false, t1) => some (acc, t1)
@@ -127,10 +134,12 @@ where
           | some (ty, t2) =>
             let (nm, t3) := nextConc t2
             let (_, t4) := next t3
-            let (_, t5) := next t4
             let fd := prefix_ ++ ty ++ [32] ++ nm ++ sq ";"
-            if t5.nextTok.kind == .lineComment then loop f t5 (acc ++ fd ++ [32] ++ t5.nextTok.concrete)
-            else loop f { t5 with keep := true } (acc ++ fd ++ [10])
+            match next t4 with
+            | (false, t5) => some (acc ++ fd ++ [10], t5)      -- the input ends after the field: break
+            | (true, t5) =>
+              if t5.nextTok.kind == .lineComment then loop f t5 (acc ++ fd ++ [32] ++ t5.nextTok.concrete)
+              else loop f { t5 with keep := true } (acc ++ fd ++ [10])
         | .closeCurly => some (acc ++ prefix_.dropLast ++ tk.concrete ++ [10], t1)
         | _ => loop f t1 acc
 
@@ -139,7 +148,7 @@ def formatMessage (fuel : Nat) (t : TR) (prefix_ : List Byte) : Option (List Byt
   loop fuel t1 (hd ++ [10])
 where
   loop : Nat → TR → List Byte → Option (List Byte × TR)
-    | 0, t, acc => some (acc, t)
+    | 0, _, _ => none      -- out of fuel: the Go loop would not have ended
     | f+1, t, acc =>
       match next t with
       | (false, t1) => some (acc, t1)
@@ -166,7 +175,7 @@ def formatUnion (fuel : Nat) (t : TR) (prefix_ : List Byte) : Option (List Byte 
   loop fuel t1 (hd ++ [10])
 where
   loop : Nat → TR → List Byte → Option (List Byte × TR)
-    | 0, t, acc => some (acc, t)
+    | 0, _, _ => none      -- out of fuel: the Go loop would not have ended
     | f+1, t, acc =>
       match next t with
       | (false, t1) => some (acc, t1)
@@ -214,8 +223,9 @@ def formatLoop (fuel : Nat) : Nat → TR → List Byte → Bool → Bool → Opt
       | .blockComment => formatLoop fuel f t1 (out ++ tk.concrete ++ [10]) false false
       | .kReadOnly => formatLoop fuel f t1 out true nl
       | .kEnum =>
-        let (e, t2) := formatEnum fuel t1
-        formatLoop fuel f t2 (out ++ pre ++ e) false true
+        match formatEnum fuel t1 with
+        | none => none
+        | some (e, t2) => formatLoop fuel f t2 (out ++ pre ++ e) false true
       | .kConst =>
         let (c, t2) := formatConst t1
         formatLoop fuel f t2 (out ++ pre ++ c) false true
